@@ -350,6 +350,11 @@ def reshape(tens, shape, eps=1e-16, rmax=sys.maxsize):
 
     dfin = len(shape)
     cores, R = rl_orthogonal(tens.cores, tens.R, tens.is_ttm)
+    # trailing modes of size one only hold a scalar factor (sign / phase after the orthogonalization): absorb them
+    # into the left neighbour, otherwise the loop below stops before consuming them
+    while len(cores) > 1 and all([s == 1 for s in cores[-1].shape[1:-1]]):
+        last = cores.pop()
+        cores[-1] = tn.tensordot(cores[-1], tn.reshape(last, [last.shape[0], last.shape[-1]]), 1)
     if tens.is_ttm:
         M = []
         N = []
